@@ -573,6 +573,40 @@ func runC07(r *Run) {
 		}
 	})
 
+	r.rule("R11", "methodInt answers a position in the configured method list: a constant position is answered only where no list was configured (`len(configured.RequestMethods) == 0`); with a configured list the name is looked up in it, so a method the list lacks is −1 and gets 501 (E1)", func() {
+		f := r.Fn("", "(*App).methodInt")
+		cut := map[edge]bool{}
+		for _, br := range branchesIn(f) {
+			lc, ok := stripValue(br.Info.Root).(*ssa.Call)
+			if !ok || calleeName(&lc.Call) != "builtin:len" || len(lc.Call.Args) != 1 {
+				continue
+			}
+			if fv := fieldOfValue(stripValue(lc.Call.Args[0])); fv == nil || fv.Name() != "RequestMethods" {
+				continue
+			}
+			if k, isInt := constInt(br.Info.Const); isInt && k == 0 {
+				switch br.Info.Op {
+				case token.EQL, token.LEQ:
+					cut[edge{br.If.Block(), br.slotWhenRel(true)}] = true
+				case token.NEQ, token.GTR:
+					cut[edge{br.If.Block(), br.slotWhenRel(false)}] = true
+				}
+			}
+		}
+		r.need(len(cut) >= 1, "methodInt tests whether a method list was configured")
+		constPos := func(in ssa.Instruction) bool {
+			ret, ok := in.(*ssa.Return)
+			if !ok || ret.Parent() != f || len(ret.Results) != 1 {
+				return false
+			}
+			k, isC := constInt(asConst(stripValue(ret.Results[0])))
+			return isC && k >= 0
+		}
+		path, hit := reach(entryOf(f), constPos, cut, nil)
+		r.check(hit == nil, "methodInt:constant-positions-only-for-the-default-list", r.fpos(f), "with the `no list configured` edge removed no constant position is returned",
+			"methodInt answers the default list's position for a standard method also when another list is configured: with RequestMethods {GET, HEAD} a POST gets index 2 instead of −1 — no 501, and the tree lookup indexes past the configured methods (panic), with {GET, HEAD, PURGE} it runs the PURGE handler: "+pathString(r.P, path))
+	})
+
 	r.rule("R10", "two interface values are compared with == only where one operand is known to hold a comparable dynamic type: otherwise equal uncomparable dynamic types (maps, slices) panic at run time (every function of the module; E3)", func() { interfaceComparisonRule(r) })
 	r.rule("R9", "a constant-index access x[c] on a byte sequence is reachable only through an edge on which len(x) > c (every function of the module; E1)", func() { constIndexRule(r) })
 	r.rule("R6", "offset accesses are not evaluated ahead of the guard that bounds them (contradiction rule over every function of the module)", func() { offsetGuardRule(r) })
